@@ -102,7 +102,9 @@ def parse_values(out):
     return vals
 
 
-def _one(ob, idx, outdir, order, timeout, cross, txt, txt_model, txt_hint=None):
+def _one(ob, idx, outdir, order, timeout, cross, txt, txt_model, txt_hint=None, cross_timeout=60):
+    """first solver in `order` that gives a definite answer decides; with `cross`, the remaining solvers are asked too
+    (shorter time limit): a different definite answer => 'disagree'; their timeouts are recorded and ignored."""
     r = Result(ob)
     path = os.path.join(outdir, '%04d_%s.smt2' % (idx, re.sub(r'[^A-Za-z0-9_.-]', '_', ob.name)[:80]))
     r.size = len(txt)
@@ -110,7 +112,8 @@ def _one(ob, idx, outdir, order, timeout, cross, txt, txt_model, txt_hint=None):
         f.write(txt)
     t0 = time.time()
     for sv in order:
-        v, out, dt = run_solver(sv, path, timeout)
+        tl = timeout if r.verdict is None else cross_timeout
+        v, out, dt = run_solver(sv, path, tl)
         r.cross[sv] = (v, round(dt, 3))
         if v in ('sat', 'unsat'):
             if r.verdict is None:
@@ -124,11 +127,11 @@ def _one(ob, idx, outdir, order, timeout, cross, txt, txt_model, txt_hint=None):
                 break
         elif v == 'error':
             r.detail += '%s: %s; ' % (sv, out[:200])
-            if cross:
-                r.verdict = 'error'
-                break
     if r.verdict is None:
         r.verdict = 'timeout' if all(x[0] == 'timeout' for x in r.cross.values()) else 'error'
+    if cross and r.verdict in ('sat', 'unsat') and any(x[0] == 'error' for x in r.cross.values()):
+        # an `(error` line from any solver makes the obligation inconclusive in the cross-checked tier
+        r.verdict = 'error'
     if r.verdict == 'sat' and ob.model_vars and txt_hint:
         path3 = path[:-5] + '.model-small.smt2'
         with open(path3, 'w') as f:
@@ -165,12 +168,19 @@ def discharge(obls, outdir, tier='quick', workers=None, order=None, timeout=None
     if cross is None:
         cross = (tier != 'quick')
     workers = workers or max(1, (os.cpu_count() or 4) - 2)
+    # cross-checking every obligation with three solvers is affordable up to a few hundred obligations; beyond that a
+    # deterministic sample is cross-checked and every obligation is still decided by the primary portfolio
+    cross_set = set(range(len(obls)))
+    if cross and len(obls) > 400:
+        import random as _r
+        rr = _r.Random(12345)
+        cross_set = set(rr.sample(range(len(obls)), 400))
     results = [None] * len(obls)
     # z3's Python API is not thread-safe: render all SMT-LIB text in this thread
     texts = [(to_smt2(ob.assertions), to_smt2(ob.assertions, ob.model_vars, True) if ob.model_vars else None,
               to_smt2(ob.assertions + list(ob.model_hint), ob.model_vars, True) if (ob.model_vars and ob.model_hint) else None) for ob in obls]
     with cf.ThreadPoolExecutor(max_workers=workers) as ex:
-        futs = {ex.submit(_one, ob, i, outdir, order, timeout, cross, texts[i][0], texts[i][1], texts[i][2]): i for i, ob in enumerate(obls)}
+        futs = {ex.submit(_one, ob, i, outdir, order, timeout, bool(cross and i in cross_set), texts[i][0], texts[i][1], texts[i][2]): i for i, ob in enumerate(obls)}
         for fu in cf.as_completed(futs):
             results[futs[fu]] = fu.result()
     return results
